@@ -491,32 +491,41 @@ func executorErrorIdentity(c *an.Ctx, rule string) {
 		c.Und(rule, "executor.(*DefaultExecutor).Execute", token.NoPos, "Execute / IsExitStatus not found")
 		return
 	}
-	var runCall *ssa.Call
-	for _, ci := range an.CallsIn(ex, "(*mvdan.cc/sh/v3/interp.Runner).Run") {
-		if call, ok := ci.(*ssa.Call); ok {
-			runCall = call
-		}
-	}
+	er := resolveExec(p)
+	runCall := er.run
 	if runCall == nil {
 		c.Und(rule, an.Short(ex)+":interp.Run", ex.Pos(), "Execute does not call the interpreter synchronously")
 		return
 	}
+	// on every path of Execute (helpers inlined) that ran the interpreter, the error returned is the interpreter's own
 	idx := an.ErrResultIndex(ex.Signature)
+	exp := er.explorer()
+	exp.Effect = func(in ssa.Instruction, st *an.State) string {
+		if in == ssa.Instruction(runCall) {
+			return "run"
+		}
+		return ""
+	}
 	okAll := true
-	for _, ret := range an.Returns(ex) {
-		if !an.Dominates(runCall, ret) {
+	nRun := 0
+	for _, o := range exp.Run(ex, ex.Blocks[0], nil, nil) {
+		if o.End != "return" || !has(o.Effects, "run") || idx >= len(o.RetVals) {
 			continue
 		}
-		for _, src := range an.Sources(an.RetVal(ret, idx)) {
+		nRun++
+		for _, src := range an.Sources(o.Root(o.RetVals[idx])) {
+			src = o.Root(src)
 			if an.IsNilConst(src) || src == ssa.Value(runCall) {
 				continue
 			}
 			okAll = false
-			c.Bad(rule, an.Short(ex)+":error-identity", ret.Pos(), "after running the command Execute returns %s instead of the interpreter's error itself: an exit status may no longer be recognised as one (or something else may be taken for one)", an.Prov(src))
+			c.Bad(rule, an.Short(ex)+":error-identity", runCall.Pos(), "after running the command Execute returns %s instead of the interpreter's error itself: an exit status may no longer be recognised as one (or something else may be taken for one)", an.Prov(src))
 		}
 	}
-	if okAll {
-		c.OK(rule, an.Short(ex)+":error-identity", runCall.Pos(), "Execute returns the interpreter's error unchanged")
+	if nRun == 0 {
+		c.Und(rule, an.Short(ex)+":error-identity", runCall.Pos(), "no path of Execute returns after the interpreter call")
+	} else if okAll {
+		c.OK(rule, an.Short(ex)+":error-identity", runCall.Pos(), "Execute returns the interpreter's error unchanged (%d paths)", nRun)
 	}
 	good := false
 	for _, ret := range an.Returns(ies) {
